@@ -918,6 +918,30 @@ pub fn sc_empty_writers(_input: &[u8]) -> u32 {
     0
 }
 
+// ------------------------------------------------------------------ C15: size calculator == bytes written
+/// for every u32 / i32 value: the SizeCalculator counts exactly the bytes a recording sink receives for write_var_u32 / write_var_i32
+pub fn sc_size_calc(input: &[u8]) -> u32 {
+    if input.len() < 4 {
+        return 0;
+    }
+    let v = ref_be(input, 4) as u32;
+    let mut rec = Rec::new();
+    rec.write_var_u32(v);
+    let mut sc = desert_core::SizeCalculator::new();
+    sc.write_var_u32(v);
+    if sc.size() != rec.n {
+        return 1;
+    }
+    let mut rec2 = Rec::new();
+    rec2.write_var_i32(v as i32);
+    let mut sc2 = desert_core::SizeCalculator::new();
+    sc2.write_var_i32(v as i32);
+    if sc2.size() != rec2.n {
+        return 2;
+    }
+    0
+}
+
 pub type Scenario = fn(&[u8]) -> u32;
 
 /// name, function, input length the harness quantifies over, description
@@ -958,6 +982,7 @@ pub const SCENARIOS: &[(&str, Scenario, usize, &str)] = &[
     ("seq_writers", sc_seq_writers, 4, "BOUNDED (2 elements, all values): Vec<u16> / [u16] / [u16;2] writers emit count + items, identical bytes"),
     ("byte_writers", sc_byte_writers, 3, "BOUNDED (3 bytes, all values): Vec<u8> / [u8] / [u8;3] writers emit raw length + bytes"),
     ("empty_writers", sc_empty_writers, 0, "BOUNDED (fixed): empty containers write count/length 0"),
+    ("size_calc", sc_size_calc, 4, "SizeCalculator counts exactly the bytes of write_var_u32/_i32 that a recording sink receives, all 2^32 values"),
     ("var_read_any", sc_var_read_any, 6, "read_var_u32 == lenient reference reader on all inputs of length 0..=6"),
 ];
 
